@@ -491,16 +491,10 @@ class World:
     def broker(self, fee_model=None):
         from qstrader.broker.simulated_broker import SimulatedBroker
         c = self.c
-        b = object.__new__(SimulatedBroker)
-        b.start_dt = c.time('br.start')
-        b.exchange = ExchangeStub(self)
-        b.data_handler = DataHandlerStub(self)
+        # built through the REAL constructor (every attribute the class sets exists), then given the symbolic state
+        b = SimulatedBroker(c.time('br.start'), ExchangeStub(self), DataHandlerStub(self), account_id='acct', initial_funds=0.0,
+                            fee_model=fee_model if fee_model is not None else make_fee_stub(self))
         b.current_dt = c.time('br.now')
-        b.account_id = 'acct'
-        b.base_currency = 'USD'
-        b.initial_funds = 0.0
-        b.fee_model = fee_model if fee_model is not None else make_fee_stub(self)
-        b.slippage_model = b.market_impact_model = None
         b.cash_balances = self.master          # the REAL dict object used by the code (concrete currency keys)
         b.portfolios = PortfolioMap(self)
         b.open_orders = QueueMap(self)
